@@ -61,7 +61,7 @@ ServeNext(w) ==
 \* a connection the service closed ends on its own; otherwise it ends when the client closes (EnvRelease)
 ServiceClosed(w) ==
   /\ wst[w] = "running" /\ cstate[wjob[w]] = "closed" /\ wjob[w] \notin mayFinish
-  /\ mayFinish' = mayFinish \cup {wjob[w]}
+  /\ crash' = crash /\ mayFinish' = mayFinish \cup {wjob[w]}
   /\ UNCHANGED <<workers, ctr, queue, wst, wjob, apc, nextJob, served, doneJobs, mvars>>
 
 MNext ==
